@@ -341,8 +341,22 @@ def gen(tier, rng):
         grid = small_grid(f, rng, 4 if (quick or search) else 40)
         pairs = [(x, y) for x in grid for y in grid]
         pairs += related_pairs(f, rng, 400 if (quick or search) else 20000)
+        # the fuelled long-division model of gcem fmod / remainder costs one extracted Flocq operation per
+        # binade between the operands: keep the exponents within 48 of each other (or a special operand),
+        # plus a few far-apart pairs; the sweeps below compare the C++ with libm over the whole range
+        def close(x, y):
+            ex, ey = (x & (f.S - 1)) >> f.mw, (y & (f.S - 1)) >> f.mw
+            top = (1 << f.ew) - 1
+            return ex == top or ey == top or (y & (f.S - 1)) == 0 or ex < ey or ex - ey <= 48
+        far = [p for p in pairs if not close(*p)]
+        far = [far[i] for i in sorted(rng.sample(range(len(far)), min(len(far), 12 if (quick or search) else 300)))]
         for fn in BINARY:
             for (x, y) in pairs:
+                if fn in ("g_fmod", "g_remainder") and not close(x, y):
+                    continue
+                out.append(f"{fn}{t} {x} {y}")
+        for fn in ("g_fmod", "g_remainder"):
+            for (x, y) in far:
                 out.append(f"{fn}{t} {x} {y}")
         # lerp: boundary t (0, 1, in between, outside), operands of equal / opposite sign, a == b
         tv = [0, f.S, f.bias << f.mw, (f.bias << f.mw) | f.S, (f.bias - 1) << f.mw, (f.bias + 1) << f.mw,
@@ -375,9 +389,19 @@ def gen(tier, rng):
             for k in range(16):
                 out.append(f"sweep32 {fn} {k << 28} 1 {1 << 28}")
             out.append(f"sweep64 {fn} {rng.getrandbits(64)} {(1 << 36) + 2 * rng.getrandbits(20) + 1} {1 << 28}")
+        # binary functions: 2^28 binary32 and 2^26 binary64 patterns per function (x 5 partner operands each), in
+        # chunks small enough for the per-case time limit of the harness (libm's fmod / remainder loop over the
+        # exponent difference)
         for fn in SWEEP_BINARY:
-            out.append(f"sweep32 {fn} {rng.randrange(16)} 17 {1 << 28}")
-            out.append(f"sweep64 {fn} {rng.getrandbits(64)} {(1 << 38) + 2 * rng.getrandbits(20) + 1} {1 << 26}")
+            slow = fn in ("fmod", "remainder")
+            n32, c32 = (256, 1 << 20) if slow else (16, 1 << 24)
+            for k in range(n32):
+                out.append(f"sweep32 {fn} {(rng.randrange(17) + k * 17 * c32) & 0xffffffff} 17 {c32}")
+            n64, c64 = (64, 1 << 20) if slow else (16, 1 << 22)
+            stride = (1 << 38) + 2 * rng.getrandbits(20) + 1
+            start = rng.getrandbits(64)
+            for k in range(n64):
+                out.append(f"sweep64 {fn} {(start + k * c64 * stride) & ((1 << 64) - 1)} {stride} {c64}")
     return out
 
 
@@ -500,6 +524,23 @@ def extra_checks(ctx):
         payload["failing_cells_same_function"] = len(lst)
         payload["more_failing_cells"] = [p["cell"] + " @ " + str(p.get("failing_argument_bits", "?")) for _, p in lst[1:6]]
         items.append({"kind": "violation", "found_input": True, "payload": payload})
+    # recorded defect of the platform's libm reached through a builtin: replayed through the main harness
+    for k in ctx.known:
+        w = k.get("harness_witness")
+        if not w:
+            continue
+        hexe, hlog = engine.build_harness("C16", "main", "harness.cpp", HFLAGS)
+        legs = ""
+        if hexe is not None:
+            rc, lines, err = engine.run_bin(hexe, [w])
+            legs = lines[0] if lines else ""
+        if legs == k.get("legs"):
+            ctx.reported_known.add(k["id"])
+            items.append({"kind": "known", "text": f"{k['id']}: {k['what']} [witness: {w} -> {legs}; expected {k.get('expected')}]"})
+        else:
+            items.append({"kind": "violation", "found_input": False,
+                          "payload": {"property": "C16", "kind": "recorded finding no longer reproduces (update known_findings.json)",
+                                      "no_longer_checks": k["id"], "case": w, "got": legs, "recorded": k.get("legs")}})
     # recorded defects of the approximate set: single arguments, must still fail in the recorded way
     for k in ctx.known:
         a = k.get("approx")
